@@ -220,6 +220,7 @@ def run(db: DB, rep: Report) -> None:
     # ---- W2 --------------------------------------------------------------------
     rep.rule("W2", "reference-returning API and 'ref' suffix only for the output tensor", 3)
     pm, hm, it = analyse(db)
+    _restore_rules(db, rep, hm)
     seen_api: Set[str] = set()
     for rec in hm.names.values():
         if rec["role"] != "method":
@@ -266,6 +267,112 @@ def run(db: DB, rep: Report) -> None:
               "Tensor.fiber_name can yield the '_ref' name for a tensor that is not the output")
 
 
+RANK_CHANGERS = {"mergeRanks", "unflattenRanks", "flattenRanks", "splitUniform", "splitEqual",
+                 "splitNonUniform"}
+
+
+def _restore_rules(db: DB, rep: Report, hm) -> None:
+    """W4-W6: the output is returned to its declared layout and every change of
+    its rank structure is followed by a renaming of the rank ids."""
+    # ---- W5: the footer always restores the output ---------------------------------
+    rep.rule("W5", "the footer un-partitions the output on every path", 1)
+    mf = db.func("teaal.trans.footer.Footer.make_footer")
+
+    def is_unpart(n):
+        return isinstance(n, ast.Call) and isinstance(n.func, ast.Attribute) and n.func.attr == "unpartition"
+    outs = paths.path_counts(mf.node.body, paths.make_pred(is_unpart))
+    calls = [n for n in walk_no_nested(mf.node) if is_unpart(n)]
+    arg_ok = bool(calls) and all(c.args and output_tensor_expr(c.args[0], c, mf)[0] for c in calls)
+    added = all(isinstance(c.parent, ast.Call) and isinstance(c.parent.func, ast.Attribute) and
+                c.parent.func.attr == "add" for c in calls)
+    rep.check("W5", all(cnt == 1 for cnt, k in outs if k != paths.RAISE) and arg_ok and added,
+              db.loc(mf.node), mf.short, "footer:unpartition",
+              "make_footer adds partitioner.unpartition(<output>) exactly once on every path",
+              "Footer.make_footer has a path on which the output tensor is not un-partitioned (call counts "
+              "%s): the result is left partitioned / flattened under a name that claims the declared ranks" %
+              sorted(outs))
+
+    # ---- W4: rank-structure changes are followed by a rank-id renaming ----------------
+    rep.rule("W4", "every rank-structure change in unpartition schedules setRankIds", 2)
+    up = db.func("teaal.trans.partitioner.Partitioner.unpartition")
+    fn = up.node
+    flags = set()
+    for n in walk_no_nested(fn):
+        if isinstance(n, ast.If) and isinstance(n.test, ast.Name) and \
+                any(isinstance(x, ast.Call) and norm(x.func).endswith("build_set_rank_ids")
+                    for s_ in n.body for x in ast.walk(s_)):
+            flags.add(n.test.id)
+    if len(flags) != 1:
+        raise AnalysisError("rename flag of Partitioner.unpartition not found (%s)" % sorted(flags))
+    flag = next(iter(flags))
+    # statements that emit a rank-structure change: EMethod(..., <changer>, ...) or a helper that does
+    helper_changers = set()
+    for g in db.cls("teaal.trans.partitioner.Partitioner").methods.values():
+        for rec in hm.names.values():
+            if rec["role"] == "method" and rec["func"] is g and g is not up:
+                if {"".join(p for p in t if isinstance(p, str)) for t in rec["tmpls"]} & RANK_CHANGERS:
+                    helper_changers.add(g.name)
+    sites = []
+    for rec in hm.names.values():
+        if rec["role"] == "method" and rec["func"] is up and \
+                {"".join(p for p in t if isinstance(p, str)) for t in rec["tmpls"]} & RANK_CHANGERS:
+            sites.append(rec["node"])
+    for n in walk_no_nested(fn):
+        if isinstance(n, ast.Call) and isinstance(n.func, ast.Attribute) and n.func.attr in helper_changers \
+                and norm(n.func.value) == "self":
+            sites.append(n)
+    if len(sites) < 2:
+        raise AnalysisError("fewer than 2 rank-structure changes found in unpartition (%d)" % len(sites))
+
+    def sets_flag(n):
+        return isinstance(n, ast.Assign) and isinstance(n.targets[0], ast.Name) and n.targets[0].id == flag \
+            and isinstance(n.value, ast.Constant) and n.value.value is True
+    for site in sites:
+        st = site
+        while not isinstance(st, ast.stmt):
+            st = st.parent
+        # after the site, on the way out of the loop iteration, the flag is set
+        ok = False
+        cur = st
+        while cur is not None and cur is not fn and not isinstance(cur, (ast.For, ast.While)):
+            _, _, blk = paths.block_of(cur)
+            after = False
+            for s_ in blk:
+                if s_ is cur:
+                    after = True
+                    continue
+                if after and sets_flag(s_):
+                    ok = True
+            cur = cur.parent if isinstance(cur.parent, ast.stmt) else None
+        rep.check("W4", ok, db.loc(site), up.short, "rename-after:" + norm(site)[:60],
+                  "rank-structure change %s is followed by '%s = True'" % (norm(site)[:50], flag),
+                  "Partitioner.unpartition emits %s, which changes the ranks of the tensor, without scheduling "
+                  "the setRankIds that follows (flag '%s' is not set after it on this path): the variable is "
+                  "bound under a name whose rank ids the tensor does not carry" % (norm(site)[:60], flag))
+
+    # ---- W6: tests on the partition suffix use the suffix, not the rank name -----------
+    rep.rule("W6", "partition-suffix tests are applied to the suffix of split_rank_name", 2)
+    for f in db.all_functions(["teaal.trans."]):
+        for n in walk_no_nested(f.node):
+            if isinstance(n, ast.Compare) and isinstance(n.left, ast.Subscript) and \
+                    isinstance(n.left.slice, ast.UnaryOp) and isinstance(n.comparators[0], ast.Constant) and \
+                    n.comparators[0].value in ("I", "0", "1"):
+                base = n.left.value
+                ok = False
+                if isinstance(base, ast.Name):
+                    for st, v in paths.defs_of(f.node, base.id):
+                        if isinstance(st, ast.Assign) and isinstance(st.targets[0], ast.Tuple) and v is not None \
+                                and "split_rank_name" in paths.called_names([v]) and \
+                                len(st.targets[0].elts) == 2 and isinstance(st.targets[0].elts[1], ast.Name) and \
+                                st.targets[0].elts[1].id == base.id:
+                            ok = True
+                rep.check("W6", ok, db.loc(n), f.short, "suffix-test:" + norm(n),
+                          "%s tests the suffix component of split_rank_name" % norm(n),
+                          "%s tests the last character of %s, which is not the partition suffix returned by "
+                          "Partitioning.split_rank_name: a user rank whose own name ends in that character is "
+                          "mistaken for a partition level / intermediate rank" % (f.short, norm(base)))
+
+
 def _parents(n: ast.AST, stop: ast.AST):
     p = getattr(n, "parent", None)
     while p is not None and p is not stop:
@@ -298,6 +405,16 @@ def mutants(db: DB):
         M("populate built in the header", hd, "        call = EMethod(EVar(tensor.fiber_name()), func, args)\n",
           "        call = EMethod(EVar(tensor.fiber_name()), func, args)\n        if self.metrics is None and not args:\n            call = EBinOp(EVar(tensor.fiber_name()), OLtLt(), call)\n",
           ("W3", "W1")),
+        M("unflatten no longer schedules setRankIds", "teaal/trans/partitioner.py",
+          "                    block.add(SAssign(AVar(next_tmp), call))\n\n                tensor.update_ranks(ranks)\n                rename_ranks = True",
+          "                    block.add(SAssign(AVar(next_tmp), call))\n\n                tensor.update_ranks(ranks)\n                rename_ranks = len(info) == 1",
+          "W4"),
+        M("footer skips unpartition when the name looks final", "teaal/trans/footer.py",
+          "        footer.add(partitioner.unpartition(output))",
+          "        if output.tensor_name() != output.root_name() + \"_\" + \"\".join(output.get_init_ranks()):\n            footer.add(partitioner.unpartition(output))",
+          "W5"),
+        M("intermediate ranks recognised by the rank name", "teaal/trans/partitioner.py",
+          "                    if suffix and suffix[-1] == \"I\":", "                    if info[0][-1] == \"I\":", "W6"),
         M("benign: output bound to a local first", eq,
           "        out_name = self.program.get_equation().get_output().root_name().lower() + \"_ref\"",
           "        out_tensor = self.program.get_equation().get_output()\n        out_name = out_tensor.root_name().lower() + \"_ref\"",
